@@ -33,10 +33,11 @@ func init() {
 }
 
 // Well-formed but adversarial group elements for sign/bls (identity in both
-// encodings, the generator, the negated generator, uncompressed forms), each
-// followed by one spare byte so that the sweep's prefixes contain the exact
-// encoding: a mutated key or signature almost never decodes, these always do
-// and reach the pairing code.
+// encodings, the generator, the negated generator, uncompressed forms), fed
+// exactly and with one trailing zero byte: a mutated key or signature almost
+// never decodes, these always do and reach the pairing code.
+var craftedInputs = map[string][][]byte{}
+
 func init() {
 	var id1, neg1 bls12381.G1
 	id1.SetIdentity()
@@ -46,26 +47,28 @@ func init() {
 	id2.SetIdentity()
 	neg2 = *bls12381.G2Generator()
 	neg2.Neg()
-	spare := func(bs ...[]byte) (out [][]byte) {
+	both := func(bs ...[]byte) (out [][]byte) {
 		for _, b := range bs {
-			out = append(out, append(append([]byte{}, b...), 0))
+			out = append(out, b, append(append([]byte{}, b...), 0))
 		}
 		return
 	}
-	g1 := spare(id1.BytesCompressed(), id1.Bytes(), bls12381.G1Generator().BytesCompressed(), bls12381.G1Generator().Bytes(), neg1.BytesCompressed(), neg1.Bytes())
-	g2 := spare(id2.BytesCompressed(), id2.Bytes(), bls12381.G2Generator().BytesCompressed(), bls12381.G2Generator().Bytes(), neg2.BytesCompressed(), neg2.Bytes())
+	g1 := both(id1.BytesCompressed(), id1.Bytes(), bls12381.G1Generator().BytesCompressed(), bls12381.G1Generator().Bytes(), neg1.BytesCompressed(), neg1.Bytes())
+	g2 := both(id2.BytesCompressed(), id2.Bytes(), bls12381.G2Generator().BytesCompressed(), bls12381.G2Generator().Bytes(), neg2.BytesCompressed(), neg2.Bytes())
 	for _, v := range []struct {
 		name     string
 		key, sig [][]byte
 	}{{"bls/KeyG1SigG2", g1, g2}, {"bls/KeyG2SigG1", g2, g1}} {
 		for _, e := range []string{".PublicKey.UnmarshalBinary", ".Verify(unmarshalled-pk)", ".VerifyAggregate(unmarshalled-pk)"} {
-			hostile(v.name+e, v.key...)
+			craftedInputs[v.name+e] = v.key
 		}
 		for _, e := range []string{".Verify(sig)", ".Aggregate(sig-element)", ".Aggregate(single)", ".VerifyAggregate(aggsig)"} {
-			hostile(v.name+e, v.sig...)
+			craftedInputs[v.name+e] = v.sig
 		}
 	}
 }
+
+func TestC10Crafted(t *testing.T) { core.Feed(t, registry, "crafted", craftedInputs) }
 
 // TestC10Hostile runs the deterministic prefix/extension sweep of c10core over the hostile bases.
 func TestC10Hostile(t *testing.T) {
@@ -78,7 +81,7 @@ func TestC10Hostile(t *testing.T) {
 		e := e
 		e.NValid = len(bases)
 		e.Valid = func(i int) []byte { return bases[i%len(bases)] }
-		e.Cost = 1
+		e.Cost = 400 // strides the prefix sweep: the critical lengths are among the last 40 prefixes, which are always fed
 		reg = append(reg, e)
 	}
 	if len(reg) != len(hostileBases) {
